@@ -14,7 +14,8 @@ func init() {
 		ID: "C10",
 		Explanation: "Structural necessary conditions of 'replica sets equal Cassandra's placement': R1 in every placement strategy a node is appended to a token's replica list only after a negative membership test on a per-token set (directly, or via a skipped list that only holds such nodes): no node twice; R2 the ring lookups (replicasFor, GetHostForToken) index only after the empty check and the wrap-around, proven by the bounds prover; " +
 			"R3 replication-factor parsing returns success only for non-negative numbers; R4 the ring walk of every strategy covers all ring positions (bounded by the number of tokens, indexed modulo it), not the number of hosts; R5 the strategy is chosen by class name and unsupported/invalid options yield no strategy rather than a wrong one." +
-			" R8 the all-racks-seen test that lets the skipped hosts into a replica list is evaluated on the rack set that already contains the current host's rack; R9 ring lookups binary-search the whole ring and replace a result past the end by entry 0 only.",
+			" R8 the all-racks-seen test that lets the skipped hosts into a replica list is evaluated on the rack set that already contains the current host's rack; R9 ring lookups binary-search the whole ring and replace a result past the end by entry 0 only." +
+			" R8 also: the seen-rack count is compared with the number of racks of this datacenter (the length of another rack set); R10 newTokenRing puts every host's tokens on the ring unconditionally, the ring is rebuilt before the replica maps are recomputed from it, and updateReplicas carries the other keyspaces over under their own names.",
 		NotDecided: "equality with Cassandra's placement (rack preference, per-DC counts, owner-first order) for every ring; reachability of the remaining sanity panics in networkTopology.replicaMap (they hold by invariants a local analysis cannot prove).",
 		Rules: []*Rule{
 			{ID: "C10.R1", Floor: 3, Doc: "replica appended only after a negative per-token membership test (no node twice)", Run: c10r1},
